@@ -18,7 +18,7 @@ Definition dropped_properties (specs : list rule_spec) : list (string * string) 
 
 Lemma dropped_properties_today :
   dropped_properties rule_specs =
-  [("convert_require", "current"); ("convert_require", "target"); ("remove_attribute", "match"); ("remove_comments", "except")].
+  [("convert_require", "current"); ("convert_require", "target")].
 Proof. vm_compute. reflexivity. Qed.
 
 (** decidable carve-out: the configured rule keeps no property that its serializer drops *)
@@ -192,36 +192,42 @@ Lemma roundtrip_refuted_unreadable :
               (serialize_rule rule_specs r) = None.
 Proof. intros. eexists. split; [reflexivity|]. split; reflexivity. Qed.
 
-(** witness 2: an accepted rule whose written form reads back as a rule with other properties *)
-Definition w_remove_comments : json := JObj [("rule", JStr "remove_comments"); ("except", JArr [JStr "^ keep"])].
+(** witness 2: two accepted rules that differ and are written identically *)
+Definition w_convert_require_luau : json :=
+  JObj [("rule", JStr "convert_require"); ("current", JStr "path"); ("target", JStr "luau")].
 
-Lemma roundtrip_refuted_dropped :
-  forall valid_glob valid_regex valid_ident norm_globals norm_reqmode env_json_ok,
-  valid_regex "^ keep" = true ->
-  exists r r', deserialize_rule valid_glob valid_regex valid_ident norm_globals norm_reqmode env_json_ok rule_specs
-                 w_remove_comments = Some r /\
-               deserialize_rule valid_glob valid_regex valid_ident norm_globals norm_reqmode env_json_ok rule_specs
-                 (serialize_rule rule_specs r) = Some r' /\
-               r_props r = [("except", PStrList ["^ keep"])] /\ r_props r' = [] /\ ~ rule_equiv r r'.
-Proof.
-  intros ? valid_regex ? ? ? ? Hre. eexists. eexists.
-  split; [cbn; rewrite Hre; reflexivity|]. split; [reflexivity|]. split; [reflexivity|]. split; [reflexivity|].
-  intros [_ [P _]]. cbn in P. apply Permutation_sym, Permutation_nil in P. discriminate.
-Qed.
-
-(** witness 3: two accepted rules that differ and are written identically *)
 Lemma injective_refuted :
   forall valid_glob valid_regex valid_ident norm_globals norm_reqmode env_json_ok,
-  valid_regex "^ keep" = true ->
   exists r1 r2, deserialize_rule valid_glob valid_regex valid_ident norm_globals norm_reqmode env_json_ok rule_specs
-                  w_remove_comments = Some r1 /\
+                  w_convert_require = Some r1 /\
                 deserialize_rule valid_glob valid_regex valid_ident norm_globals norm_reqmode env_json_ok rule_specs
-                  (JStr "remove_comments") = Some r2 /\
+                  w_convert_require_luau = Some r2 /\
                 serialize_rule rule_specs r1 = serialize_rule rule_specs r2 /\ ~ rule_equiv r1 r2.
 Proof.
-  intros ? valid_regex ? ? ? ? Hre. eexists. eexists.
-  split; [cbn; rewrite Hre; reflexivity|]. split; [reflexivity|]. split; [reflexivity|].
-  intros [_ [P _]]. cbn in P. apply Permutation_sym, Permutation_nil in P. discriminate.
+  intros. eexists. eexists. split; [reflexivity|]. split; [reflexivity|]. split; [reflexivity|].
+  intros [_ [P _]]. cbn in P.
+  assert (Hin : In ("target", PStr "roblox") [("current", PStr "path"); ("target", PStr "luau")]).
+  { eapply Permutation_in; [exact P|]. right. left. reflexivity. }
+  cbn in Hin. destruct Hin as [H|[H|[]]]; discriminate.
+Qed.
+
+(** the patterns of remove_comments / remove_attribute are written since darklua 1875b55: order and
+    duplicates are kept, an empty list is the same as no list *)
+Definition w_remove_comments : json :=
+  JObj [("rule", JStr "remove_comments"); ("except", JArr [JStr "^ keep"; JStr "b|a"; JStr "^ keep"])].
+
+Example ex_patterns_roundtrip :
+  forall valid_glob valid_regex valid_ident norm_globals norm_reqmode env_json_ok,
+  valid_regex "^ keep" = true -> valid_regex "b|a" = true ->
+  exists r, deserialize_rule valid_glob valid_regex valid_ident norm_globals norm_reqmode env_json_ok rule_specs
+              w_remove_comments = Some r /\
+            writes_all rule_specs r = true /\ serialize_rule rule_specs r = w_remove_comments /\
+            deserialize_rule valid_glob valid_regex valid_ident norm_globals norm_reqmode env_json_ok rule_specs
+              (JObj [("rule", JStr "remove_attribute"); ("match", JArr [])]) =
+            Some (RuleCfg "remove_attribute" [] [] []).
+Proof.
+  intros ? valid_regex ? ? ? ? H1 H2. eexists.
+  split; [cbn; rewrite H1, H2; reflexivity|]. split; [reflexivity|]. split; reflexivity.
 Qed.
 
 (** witness 4 (strictness): the `retain_lines` generator object is accepted with keys nobody reads *)
